@@ -5,7 +5,7 @@
    `step false` is the repaired code, `step true` the pinned upstream code (…_refuted). *)
 From Coq Require Import ZArith QArith List Bool Permutation.
 Import ListNotations.
-Require Import Plinio.Base.Qx Plinio.Model.Train Plinio.Proofs.Train.
+Require Import Plinio.Base.Qx Plinio.Model.Train Plinio.Proofs.Train Plinio.Gen.TrainGen Plinio.Proofs.TrainGen.
 
 (* nas_parameters() and net_parameters() partition parameters(): each exactly once, shared objects once,
    and no operation changes the groups  (holds for the upstream and the repaired code) *)
@@ -99,6 +99,100 @@ Example C11_example :
   trace false [TNetAndNas; TFwdBwd] ex_state = [[]; [(0, true); (1, true); (2, false); (3, false); (4, true)]%nat].
 Proof. vm_compute. repeat split; reflexivity. Qed.
 
+(* ---------------------------------------------------------------- second tie, by translation.
+   Gen/TrainGen.v is GENERATED on every run by translator/train2coq.py from the source of the trainability bookkeeping of
+   the tree under test: DNAS.train_nas_only / train_net_only / train_net_and_nas / nas_parameters / net_parameters,
+   named_nas_parameters / named_net_parameters of PIT, MPS and SuperNet, the train_features / train_rf / train_dilation /
+   discrete_cost / train_selection properties and setters (model, layer, masker / combiner), the constructors of the six
+   masker classes (is the mask a registered Parameter or a buffer) and the masker choice of PITConv1d.autoimport.
+   Proofs/TrainGen.v proves the generated functions equal to Model/Train.v for the repaired code (v0 = false) on the states
+   of one method (`method_state m st`: every layer record is one the method's isinstance test accepts; what an MPS layer /
+   a combiner yields is a registered Parameter), so the theorems above are statements about the code as it is now: a change
+   of the bookkeeping changes the generated text and these theorems stop checking unless the new code computes the same. *)
+(* the constructors: a base masker registers its mask as a Parameter, a Frozen one ends with a buffer *)
+Theorem C11_generated_masks_registered : forall k frozen, reg_is_param (masker_mask_reg_gen k frozen) = negb frozen.
+Proof. exact masker_mask_reg_eq. Qed.
+(* `masker.trainable = v` writes requires_grad of the mask; the Frozen classes ignore the assignment *)
+Theorem C11_generated_masker_setter_is_model : forall k t v, masker_set_trainable_gen k t v = if p_frozen t then t else with_rg t v.
+Proof. exact masker_set_trainable_eq. Qed.
+(* PITConv1d.autoimport: exactly the strided convolutions get the Frozen receptive-field and dilation maskers *)
+Theorem C11_generated_strided_conv_gets_frozen_maskers : forall stride,
+  conv1d_autoimport_timestep_frozen_gen stride = negb (Z.eqb stride 1) /\ conv1d_autoimport_dilation_frozen_gen stride = negb (Z.eqb stride 1).
+Proof. exact conv1d_autoimport_frozen_eq. Qed.
+(* parameters(), nas_parameters(), net_parameters() *)
+Theorem C11_generated_parameters_is_model : forall st, module_named_parameters st = param_ids false st.
+Proof. exact module_named_parameters_eq. Qed.
+Theorem C11_generated_nas_is_model : forall m st, method_state m st = true -> gen_nas_ids m st = nas_ids false st.
+Proof. exact gen_nas_ids_eq. Qed.
+Theorem C11_generated_net_is_model : forall m st, method_state m st = true -> gen_net_ids m st = net_ids false st.
+Proof. exact gen_net_ids_eq. Qed.
+(* train_nas_only / train_net_only / train_net_and_nas *)
+Theorem C11_generated_train_is_model : forall m st, method_state m st = true ->
+  dnas_train_nas_only_gen (gen_named_nas m) (gen_named_net m) st = train false true false st /\
+  dnas_train_net_only_gen (gen_named_nas m) (gen_named_net m) st = train false false true st /\
+  dnas_train_net_and_nas_gen (gen_named_nas m) (gen_named_net m) st = train false true true st.
+Proof. intros m st W. exact (conj (dnas_train_nas_only_eq m st W) (conj (dnas_train_net_only_eq m st W) (dnas_train_net_and_nas_eq m st W))). Qed.
+(* the switches of PIT (any state) and of SuperNet *)
+Theorem C11_generated_pit_switches_are_model : forall st b,
+  pit_set_train_features_gen st b = fst (step false st (TSetFeat b)) /\ pit_set_train_rf_gen st b = fst (step false st (TSetRf b)) /\
+  pit_set_train_dilation_gen st b = fst (step false st (TSetDil b)) /\ pit_set_discrete_cost_gen st b = fst (step false st (TSetDiscrete b)).
+Proof. intros st b. exact (conj (pit_set_train_features_eq st b) (conj (pit_set_train_rf_eq st b) (conj (pit_set_train_dilation_eq st b) (pit_set_discrete_cost_eq st b)))). Qed.
+Theorem C11_generated_supernet_switch_is_model : forall st b, method_state MSn st = true ->
+  sn_set_train_selection_gen st b = fst (step false st (TSetSel b)).
+Proof. exact sn_set_train_selection_eq. Qed.
+(* one operation, every operation list, and the comparison the harness makes *)
+Theorem C11_generated_step_is_model : forall m st o, method_state m st = true -> gen_step m st o = step false st o.
+Proof. exact gen_step_eq. Qed.
+Theorem C11_generated_run_is_model : forall m ops st, method_state m st = true -> gen_run m ops st = run false ops st.
+Proof. exact gen_run_eq. Qed.
+Theorem C11_generated_check_is_model : forall m st0 path o e_rg e_flags e_disc e_samp e_obs, method_state m st0 = true ->
+  check_step_gen m st0 path o e_rg e_flags e_disc e_samp e_obs = check_step false st0 path o e_rg e_flags e_disc e_samp e_obs.
+Proof. exact check_step_gen_eq. Qed.
+
+(* --- the sentences of the property, about the generated code.  The two groups the generated nas_parameters() /
+   net_parameters() report partition the generated parameters(), each exactly once, and no operation list changes them *)
+Theorem C11_generated_partition : forall m ops st, wfb st = true -> method_state m st = true ->
+  let st' := gen_run m ops st in
+  gen_nas_ids m st' = gen_nas_ids m st /\ gen_net_ids m st' = gen_net_ids m st /\ module_named_parameters st' = module_named_parameters st /\
+  (NoDup (gen_nas_ids m st') /\ NoDup (gen_net_ids m st') /\
+   (forall i, In i (gen_nas_ids m st') -> In i (gen_net_ids m st') -> False) /\
+   (forall i, In i (module_named_parameters st') <-> In i (gen_nas_ids m st') \/ In i (gen_net_ids m st')) /\
+   Permutation (gen_nas_ids m st' ++ gen_net_ids m st') (module_named_parameters st')).
+Proof. exact gen_partition. Qed.
+(* after any history, each generated train_* leaves exactly the named group trainable (every tensor, frozen masks included) *)
+Theorem C11_generated_train_x_exact : forall m ops st, wfb st = true -> method_state m st = true ->
+  let s1 := gen_run m ops st in
+  (forall t, In t (tens (dnas_train_nas_only_gen (gen_named_nas m) (gen_named_net m) s1)) -> p_rg t = memb (p_id t) (gen_nas_ids m st)) /\
+  (forall t, In t (tens (dnas_train_net_only_gen (gen_named_nas m) (gen_named_net m) s1)) -> p_rg t = memb (p_id t) (gen_net_ids m st)) /\
+  (forall t, In t (tens (dnas_train_net_and_nas_gen (gen_named_nas m) (gen_named_net m) s1)) -> p_rg t = memb (p_id t) (module_named_parameters st)).
+Proof. exact gen_train_x_exact. Qed.
+(* frozen masks never become trainable, are in neither group, and never get a gradient *)
+Theorem C11_generated_frozen_never_trainable : forall m ops st, wfb st = true -> method_state m st = true ->
+  forall t, In t (tens (gen_run m ops st)) -> p_frozen t = true -> p_rg t = false.
+Proof. exact gen_frozen_never_trainable. Qed.
+Theorem C11_generated_frozen_in_no_group : forall m ops st, wfb st = true -> method_state m st = true ->
+  forall t, In t (tens (gen_run m ops st)) -> p_frozen t = true ->
+    memb (p_id t) (gen_nas_ids m (gen_run m ops st)) = false /\ memb (p_id t) (gen_net_ids m (gen_run m ops st)) = false.
+Proof. exact gen_frozen_in_no_group. Qed.
+Theorem C11_generated_frozen_never_gets_grad : forall m ops st, wfb st = true -> method_state m st = true ->
+  forall o, In o (gen_trace m ops st) -> forall i, In i (frozen_ids st) -> ~ In (i, true) o.
+Proof. exact gen_frozen_never_gets_grad. Qed.
+(* the generated switch k sets exactly the masks of that kind held by non-frozen maskers *)
+Theorem C11_generated_switch_exact : forall m ops st k b, method_state m st = true ->
+  let s1 := gen_run m ops st in
+  Forall2 (fun t t' => p_id t' = p_id t /\ p_frozen t' = p_frozen t /\
+                      p_rg t' = if memb (p_id t) (sw_ids (sw_sel k) st) && negb (p_frozen t) then b else p_rg t)
+          (tens s1) (tens (fst (gen_step m s1 (sw_op k b)))).
+Proof. exact gen_switch_exact. Qed.
+(* non-vacuity: a PIT state with a shared features masker, a strided Conv1d (frozen masks 2, 3) and a frozen output mask (5) *)
+Example C11_generated_example :
+  wfb gex_state = true /\ method_state MPit gex_state = true /\
+  let s := gen_run MPit [TNetOnly; TSetRf false; TSetDiscrete true; TNasOnly; TSetFeat false] gex_state in
+  gen_nas_ids MPit s = [1; 4]%nat /\ gen_net_ids MPit s = [0]%nat /\
+  map p_rg (tens s) = [false; false; false; false; true; false] /\ map l_disc (layers s) = [true; true; true] /\
+  gen_flags MPit s = [false; false; true; true; true].
+Proof. exact gen_example. Qed.
+
 Print Assumptions C11_partition_static.
 Print Assumptions C11_train_x_exact.
 Print Assumptions C11_frozen_never_trainable.
@@ -110,3 +204,21 @@ Print Assumptions C11_fwdbwd_is_observer.
 Print Assumptions C11_upstream_frozen_never_trainable_refuted.
 Print Assumptions C11_upstream_frozen_never_gets_grad_refuted.
 Print Assumptions C11_upstream_options_partial_update_refuted.
+Print Assumptions C11_generated_masks_registered.
+Print Assumptions C11_generated_masker_setter_is_model.
+Print Assumptions C11_generated_strided_conv_gets_frozen_maskers.
+Print Assumptions C11_generated_parameters_is_model.
+Print Assumptions C11_generated_nas_is_model.
+Print Assumptions C11_generated_net_is_model.
+Print Assumptions C11_generated_train_is_model.
+Print Assumptions C11_generated_pit_switches_are_model.
+Print Assumptions C11_generated_supernet_switch_is_model.
+Print Assumptions C11_generated_step_is_model.
+Print Assumptions C11_generated_run_is_model.
+Print Assumptions C11_generated_check_is_model.
+Print Assumptions C11_generated_partition.
+Print Assumptions C11_generated_train_x_exact.
+Print Assumptions C11_generated_frozen_never_trainable.
+Print Assumptions C11_generated_frozen_in_no_group.
+Print Assumptions C11_generated_frozen_never_gets_grad.
+Print Assumptions C11_generated_switch_exact.
